@@ -25,6 +25,5 @@ def run(ctx):
         ],
         assumptions=[
             "guards: wf_schema (C10) and vars_wf (every variable's named type is a defined scalar/enum/input object): what `check` enforces for an accepted operation",
-            "theorems are of the form 'whenever has_type_b decides'; that it decides for the fuel used is evaluated on every candidate assignment of every run",
         ],
     )
